@@ -450,10 +450,8 @@ Proof.
       apply in_map_iff in Hx. destruct Hx as (tf & <- & Htf).
       change (chain (with_flags c (set_modes (c_flags c) (f_dry (c_flags c)) false true)) GTypes) with (chain c GTypes).
       assert (Hl : listable k tf = true).
-      { unfold eff_trig_tpl in Hnj. unfold listable. destruct (k_fix_nonj2 k).
-        - unfold trig_py in Hnj. rewrite (existsb_false_all _ _ tf Hnj Htf). reflexivity.
-        - unfold trig_nonj2 in Hnj. pose proof (existsb_false_all _ _ tf Hnj Htf) as H0.
-          cbn beta in H0. apply negb_false_iff in H0. exact H0. }
+      { unfold eff_trig_tpl in Hnj. pose proof (existsb_false_all _ _ tf Hnj Htf) as H0.
+        cbn beta in H0. apply negb_false_iff in H0. exact H0. }
       unfold type_templates in Htf. apply (tpl_closure_in _ _ (type_entries_in k c i)) in Htf.
       apply in_concat_chain in Htf. destruct Htf as (d & Hd & Hf).
       apply in_flat_map. exists d. split; [exact Hd|]. unfold listable_paths. apply in_map. apply filter_In. split; assumption.
@@ -534,7 +532,7 @@ Theorem list_inputs_complete_gen k : guards_ok k = true -> (forall fl nse, chk_i
   (forall fl, chk_stable k fl = true) ->
   k_fix_lookup k = true -> k_fix_constref k = true -> k_fix_nonj2 k = true -> k_fix_suptpl k = true ->
   forall c i, f_lc (c_flags c) = false -> beval (c_flags c) false false false (k_reject k) = false -> ns_clash k c i = false ->
-  trig_py k c i = false -> trig_sup_refs k c = false ->
+  eff_trig_tpl k c i = false -> trig_sup_refs k c = false ->
   forall x, In x (all_influences k c i) -> is_config_input c x = false ->
   forall f, exists out, run k (li_of c) i f = (f, out, Ok) /\ In x out.
 Proof.
@@ -543,7 +541,7 @@ Proof.
   2:{ exfalso. unfold is_config_input in Hcfg. apply path_in_spec in Hx. congruence. }
   clear Hcfg. revert x Hx. apply (list_inputs_partial_gen k HG Hchk Hst c i Hlc Hrej Hclash).
   - unfold eff_trig_lookup. rewrite H1, H1c. reflexivity.
-  - unfold eff_trig_tpl. rewrite H2. exact Hpy.
+  - exact Hpy.
   - unfold eff_trig_sup. rewrite H3, Hrefs. reflexivity.
   - rewrite H3. reflexivity.
 Qed.
